@@ -6,7 +6,7 @@ import ast
 from .. import AnalysisError
 from ..cfg import describe_path, no_exc
 from ..program import FuncInfo, ancestors, enclosing_stmt, norm, walk_local
-from . import fa
+from . import delform, fa
 from .common import check_none_defaults
 
 EXPLANATION = (
@@ -158,6 +158,11 @@ def run(ctx) -> None:
     ctx.rule("C06.keyed", "T5: unordered pool results are order-free", floor=1)
     ctx.rule("C06.chunk", "T6: chunk size >= 1", floor=1)
     ctx.rule("C06.nonedefault", "T5: optional arguments are defaulted only when None", floor=3)
+    ctx.rule("C06.formulation", "oracle evaluation: one row per combination, values of the model with exactly the implied reactions at zero", floor=6)
+    try:
+        delform.check_deletions(ctx, "C06.formulation")
+    except AnalysisError as exc:
+        ctx.defer(str(exc))
     check_tasks(ctx)
     check_scope(ctx)
     check_status(ctx)
